@@ -91,6 +91,24 @@ def mailbox_design(txd, rxd, contexts, dq=False):
     return "\n".join(lines) + "\n"
 
 
+def mailbox_coro_design(txd, rxd, variant):
+    """coroutine users: the flag is queried AFTER send() / clear() in program order in the same context"""
+    lines = [HEADER, "class W(cohdl.Entity):", "    clk = Port.input(Bit)", "    reset = Port.input(Bit)",
+             "    p_try = Port.input(Bit)", "    c_ready = Port.input(Bit)", f"    payload = Port.input(Unsigned[{PW}])",
+             "    sent = Port.output(Bit, default=False)", "    recv = Port.output(Bit, default=False)", "    acked = Port.output(Bit, default=False)",
+             f"    recv_data = Port.output(Unsigned[{PW}], default=Null)", "    def architecture(self):",
+             "        ctx = std.SequentialContext(std.Clock(self.clk), std.Reset(self.reset))",
+             f"        mb = std.Mailbox[Unsigned[{PW}]]({_delay_args(txd, rxd)})"]
+    plain_prod = ["@ctx", "def producer():", "    if self.p_try and mb.is_clear():", "        mb.send(self.payload)", "        self.sent ^= True"]
+    plain_cons = ["@ctx", "def consumer():", "    if self.c_ready and mb.is_set():", "        self.recv_data <<= mb.data()", "        mb.clear()", "        self.recv ^= True"]
+    coro_prod = ["@ctx", "async def producer():", "    await self.p_try", "    mb.send(self.payload)", "    self.sent ^= True", "    await mb.is_clear()", "    self.acked ^= True"]
+    coro_cons = ["@ctx", "async def consumer():", "    await self.c_ready", "    a = await mb.receive()", "    self.recv_data <<= a", "    self.recv ^= True",
+                 "    b = await mb.receive()", "    self.recv_data <<= b", "    self.recv ^= True"]
+    prod, cons = {"producer-ack": (coro_prod, plain_cons), "consumer-receive-twice": (plain_prod, coro_cons), "both-coroutines": (coro_prod, coro_cons)}[variant]
+    lines += ["        " + l for l in prod + cons]
+    return "\n".join(lines) + "\n"
+
+
 class MailboxMonitor(Monitor):
     def __init__(self):
         super().__init__()
@@ -103,6 +121,8 @@ class MailboxMonitor(Monitor):
         sent, recv = bit(outs["sent"]), bit(outs["recv"])
         self.check(D.b_implies(sent, D.b_not(self.pending)), "send accepted while the previous message was still pending")
         self.check(D.b_implies(sent, bit(ins["p_try"])), "send without request")
+        if "acked" in outs:
+            self.check(D.b_implies(bit(outs["acked"]), D.b_not(self.pending)), "producer saw the mailbox clear (acknowledged) before the consumer had taken the message")
         self.check(D.b_implies(recv, self.pending), "receive without pending message (duplicate or phantom)")
         self.last = mux(rst, 0, mux(recv, self.data, self.last, PW), PW)
         self.check(D.v_eq(outs["recv_data"], self.last, PW), "received payload differs from the payload sent (or changed without receive)")
@@ -143,6 +163,10 @@ def jobs(tier):
             js.append((f"SyncFlag|tx={txd}|rx={rxd}|redundant clear", flag_design(txd, rxd, ctxs, redundant_clear=True), {"reset": 1, "p_try": 1, "c_ready": 1}, ["obs_clear", "recv"], K, lambda: FlagMonitor(False)))
             js.append((f"SyncFlag|tx={txd}|rx={rxd}|repeated queries", flag_design(txd, rxd, ctxs, dq=True), {"reset": 1, "p_try": 1, "c_ready": 1}, ["obs_clear", "recv"], K, lambda: FlagMonitor(False)))
             js.append((f"Mailbox|tx={txd}|rx={rxd}|repeated queries", mailbox_design(txd, rxd, ctxs, dq=True), {"reset": 1, "p_try": 1, "c_ready": 1, "payload": PW}, ["sent", "recv", "recv_data"], K, MailboxMonitor))
+        if ctxs == 2:
+            for variant in ("producer-ack", "consumer-receive-twice", "both-coroutines"):
+                js.append((f"Mailbox|tx={txd}|rx={rxd}|{variant}", mailbox_coro_design(txd, rxd, variant), {"reset": 1, "p_try": 1, "c_ready": 1, "payload": PW},
+                           ["sent", "recv", "recv_data", "acked"], K, MailboxMonitor))
         js.append((f"Mailbox-progress|tx={txd}|rx={rxd}|contexts={ctxs}", mailbox_design(txd, rxd, ctxs), {"reset": 1, "p_try": 1, "c_ready": 1, "payload": PW}, ["sent", "recv", "recv_data"], 10, lambda: MailboxLiveness(10)))
     return js
 
